@@ -25,6 +25,10 @@ CLAIMED = {
          "v1 UNKNOWN and v2 LOCAL/UNSPEC headers declare no addresses: what the third-party library reports then is not judged; v2 headers with TLVs are rejected by the library (connection closed), which the oracle accepts"),
  "C16": ("§6 C16", "Seeded simulation of the real SOCKS5 handler over go-socks5 (instrumented copy: its dial, UDP listen and resolver calls go to the simulated network) with drawn command subsets and credential maps and scripted client negotiations (all method lists, credentials, command codes, address types, versions, truncations, segmentations); a small RFC 1928/1929 model decides permission and the census of outbound dials / UDP binds is compared with it; permitted CONNECT relays byte-exactly.",
          "name resolution through the (simulated) resolver is not counted as an outbound connection; UDP ASSOCIATE relaying itself is not exercised (the simulated ListenUDP records the bind and refuses)"),
+ "C04": ("§6 C04", "Adversarial-client simulation (strength: sampling over inputs): per run one client offers random bytes, generator-made well-formed first messages, structure-aware and generic mutations of them to a shipped matcher (default and filtered configurations) or parsing handler over simulated TCP or UDP, under arbitrary segmentation and with close / reset / stall at an arbitrary byte; a panic or a run that never leaves repository code kills the worker and is reported with its seed; every matcher evaluation's allocation (MemStats.TotalAlloc delta) must stay below 32 x MaxMatchingBytes.",
+         "the quic matcher (spins a real quic-go listener with its own goroutines and timers) is not run inside the bubble; allocation is measured for matchers, handlers are checked for survival only; crash replays are by seed (the tape of a crashed run cannot be shrunk in-process)"),
+ "C06": ("§6 C06", "Each input (generator-made valid message with trailing data, or a mutation) is delivered to the real router several times: whole, then under tape-chosen segmentations; a wrapper evaluates the shipped matcher twice per round and watches the client socket's read counter and the prefetch buffer. Oracle: no socket reads while matching, buffer untouched, repeatable verdict, a message that matches with the whole message buffered matches under every delivery, and a 'no' on a prefix is never followed by a 'yes' on a longer prefix of the same input.",
+         "matchers that by design reject trailing bytes (dns/tcp, rdp, openvpn/tcp, winbox) get no trailing data; the quic matcher is excluded (see C04); inputs larger than MaxMatchingBytes are exempt from the whole-message reference"),
 }
 NA = {
  "C07": "pure function of the ClientHello bytes (differential input testing against crypto/tls): no schedule, clock, fault or interleaving for a simulator to decide; its one schedule-dependent clause is exercised under C06",
@@ -32,7 +36,7 @@ NA = {
  "C15": "Caddyfile->JSON adaptation and JSON round trip are pure single-threaded functions of the configuration text",
  "C18": "FromBytes/ToBytes inverse laws are pure functions of byte strings",
 }
-PENDING = ["C04","C06","C08"]
+PENDING = ["C08"]
 m = {
  "version": 1,
  "setup_cmd": "./check build",
